@@ -76,7 +76,9 @@ DecHLL(bs) ==
 \*   (12 for m < 128 where the estimator's distribution is strongly skewed, 8 above);
 \*   n/32: the known systematic bias of the uncorrected estimator around the switch
 \*   from linear counting to the raw estimate (n ~ 2.5 m); 2: rounding / small sets.
-\* For n <= m/10 this reads |est - n| <= 2 + n/32 + 2.7 sqrt(n): near exact.
+\* Small sets (n <= m/10, the linear-counting range: the answer is m ln(m/V), V the
+\* number of empty registers, whose standard error is about 0.75 n / sqrt(m) there):
+\*   |est - n| <= 2 + 8 * 0.75 * n / sqrt(m)      (<= 2 + 1.9 sqrt(n): near exact)
 Sqrt10 == [p \in 4..16 |-> CASE p = 4 -> 40 [] p = 5 -> 57 [] p = 6 -> 80 [] p = 7 -> 113 [] p = 8 -> 160
                               [] p = 9 -> 226 [] p = 10 -> 320 [] p = 11 -> 453 [] p = 12 -> 640
                               [] p = 13 -> 905 [] p = 14 -> 1280 [] p = 15 -> 1810 [] p = 16 -> 2560]
@@ -89,6 +91,7 @@ EstOK(p, n, est) ==
     /\ d <= 4 * n + 8
     /\ (p >= 8 => d <= n + 8)
     /\ d * Sqrt10[p] <= ((KMult(p) * 104 * n) \div 10) + (2 + ((n + 31) \div 32)) * Sqrt10[p]
+    /\ (10 * n <= 2 ^ p => d * Sqrt10[p] <= 60 * n + 2 * Sqrt10[p])
     /\ (n = 0 => est = 0)
 
 (***************************************************************************)
